@@ -258,6 +258,14 @@ Section TreeOps.
   Definition tree_iterate (st : tstate) (f : N -> N -> N) : list (N * N) * tstate :=
     let '(vis, r1) := titer (S (depth st)) f (root st) in (vis, mkT r1 (al st) (depth st)).
 
+  (* harness-only white-box poke: the buffer is cut back to the pages in use and made exactly full (offset =
+     8 + nextPage*pageSize, curSz = offset; a persistent file is truncated to that size; the pages beyond nextPage
+     are blank), so that the next page taken by bumping nextPage re-allocates / re-maps the buffer *)
+  Definition tree_tight (st : tstate) : tstate :=
+    let a := al st in
+    let off := 8 + nextPage a * ps in
+    mkT (root st) (mkAlloc (nextPage a) (freeList a) (leafKeys a) (pagesFree a) off off) (depth st).
+
   (* Stats(): NumLeafKeys, NumPages, NumPagesFree; white box: nextPage, freePage, len(data) *)
   Definition stat_leaf_keys (st : tstate) : Z := leafKeys (al st).
   Definition stat_pages (st : tstate) : N := nextPage (al st) - 1.
